@@ -471,6 +471,12 @@ Definition helper_rewind_next (h : helper P) (ms : list msg) : outcome (helper P
 
 Definition helper_resume (h : helper P) (i : input) : outcome (helper P) * list obs :=
   match hph h, i with
+  | HPre p, Close =>       (* closing the helper closes the pre/post plan it is delegating to *)
+      let pid := match hpre h with Some (pid, _) => pid | None => 0 end in
+      let _ := presume p Close in (Raised EGeneratorExit, [OPlanIn pid Close])
+  | HPost p, Close =>
+      let pid := match hpost h with Some (pid, _) => pid | None => 0 end in
+      let _ := presume p Close in (Raised EGeneratorExit, [OPlanIn pid Close])
   | _, Close => (Raised EGeneratorExit, [])
   | H0, Send _ => (Yielded (mk (CRewindable (Some false))) (helper_set h HRwFalse), [])
   | H0, Throw e => (Raised e, [])
